@@ -102,7 +102,6 @@ class RibCtx(BaseCtx):
         if kind == "drop":
             how = rng.pick(["pclose", "reset", "notif", "stop"])
             if how == "stop":
-                self.need_start = True
                 return ["rest", "GET", URL + "manual-stop", "ok"]
             if how == "notif":
                 return ["send", k, rp.encode_notification(6, 4).hex(), []]
@@ -144,7 +143,7 @@ class RibCtx(BaseCtx):
             raw = rp.mp_unreach(1, 133, nlri)
         else:
             raw = self.base_attr_bytes() + rp.mp_reach(1, 133, b"", nlri) + rp.ext_communities([rng.pick(FLOW_ACTIONS)])
-        return rp.encode_update(raw_attrs=raw)
+        return self.maybe_mixed(rng, raw)
 
     def gen_vpn(self, rng):
         i = rng.randrange(3)
@@ -157,7 +156,21 @@ class RibCtx(BaseCtx):
         else:
             nh = bytes(8) + socket.inet_aton("2.2.2.2")
             raw = self.base_attr_bytes() + rp.mp_reach(1, 128, nh, nlri) + rp.ext_communities([rng.pick(VPN_RTS)])
-        return rp.encode_update(raw_attrs=raw)
+        return self.maybe_mixed(rng, raw)
+
+    def maybe_mixed(self, rng, raw):
+        """RFC 4760 allows classic IPv4 NLRI / withdrawn routes next to an MP attribute in one UPDATE."""
+        if not rng.chance(0.2):
+            return rp.encode_update(raw_attrs=raw)
+        wd = sorted(set(rng.pick(PREFIXES) for _ in range(rng.randrange(0, 3))))
+        nl = []
+        if raw[:3] != rp.mp_unreach(1, 1, b"")[:3] and rng.chance(0.6) and self.base_attr_bytes() in raw:
+            nl = [p for p in sorted(set(rng.pick(PREFIXES) for _ in range(rng.randrange(1, 3)))) if p not in wd]
+            raw = raw + rp.attr_tlv(0x40, 3, socket.inet_aton("10.0.0.2"))
+        if not wd and not nl:
+            wd = [rng.pick(PREFIXES)]
+        self.stats["gen:mixed_mp_and_ipv4_updates"] += 1
+        return rp.encode_update(wd, None, nl, raw_attrs=raw)
 
     def rest_ipv4(self, rng):
         nl = sorted(set(rng.pick(PREFIXES) for _ in range(rng.randrange(0, 3))))
@@ -215,8 +228,8 @@ class RibCtx(BaseCtx):
         self.check_escapes(escapes, "rib")
         if self.done:
             return
-        if getattr(self, "need_start", False) and op[0] == "rest" and op[2].endswith("manual-stop"):
-            self.need_start = False
+        if op[0] == "rest" and op[2].endswith("manual-stop"):
+            # an operator stop is always followed by a start (this profile is about tables, not C13)
             w.apply(["rest", "GET", URL + "manual-start", "ok"])
         st = w.state()
         self.trace.append([op[0], st])
@@ -286,7 +299,8 @@ class RibCtx(BaseCtx):
         fam_changed = {"ipv4": False, "flowspec": False, "mpls_vpn": False}
         family = "ipv4"
         other = dict((c, (fl, bytes.fromhex(v))) for c, fl, v in d["attrs"].get("other", []))
-        if 14 in other or 15 in other:
+        has_mp = 14 in other or 15 in other
+        if has_mp:
             code = 14 if 14 in other else 15
             val = other[code][1]
             afi, safi = struct.unpack("!HB", val[:3])
@@ -311,7 +325,7 @@ class RibCtx(BaseCtx):
                         fam_changed[family] = True
                         del tbl[k]
             self.stats["rx_%s_updates" % family] += 1
-        else:
+        if d["withdrawn"] or d["nlri"] or not has_mp:
             tbl = self.rx["ipv4"]
             payload = None
             if len(reps) == 1:
@@ -333,16 +347,19 @@ class RibCtx(BaseCtx):
                     self.stats["reannounce_same_attrs"] += 1
                 tbl[pfx] = aid
             self.stats["rx_ipv4_updates"] += 1
-            # Adj-RIB-In equals the model
-            rib = p.adj_rib_in.get("ipv4", {})
-            if sorted(rib) != sorted(tbl):
-                raise Violation("C19", "rib-in", "prefix-set-differs/%s" % ("extra" if set(rib) - set(tbl) else "missing"),
-                                "after UPDATE (withdrawn %s, nlri %s) Adj-RIB-In holds %s; applying the updates in order gives %s"
-                                % (d["withdrawn"], d["nlri"], sorted(rib), sorted(tbl)))
-            for pfx in tbl:
-                if repr(canon(rib[pfx])) != tbl[pfx]:
-                    raise Violation("C19", "rib-in", "attributes-differ",
-                                    "Adj-RIB-In[%s] = %s; the last announcement carried %s" % (pfx, canon(rib[pfx]), tbl[pfx]))
+        # Adj-RIB-In equals the model (after every UPDATE, whatever its family)
+        tbl = self.rx["ipv4"]
+        rib = p.adj_rib_in.get("ipv4", {})
+        if sorted(rib) != sorted(tbl):
+            raise Violation("C19", "rib-in", "prefix-set-differs/%s" % ("extra" if set(rib) - set(tbl) else "missing"),
+                            "after UPDATE (withdrawn %s, nlri %s%s) Adj-RIB-In holds %s; applying the updates in order gives %s"
+                            % (d["withdrawn"], d["nlri"], ", with an MP attribute" if has_mp else "", sorted(rib), sorted(tbl)))
+        for pfx in tbl:
+            if repr(canon(rib[pfx])) != tbl[pfx]:
+                raise Violation("C19", "rib-in", "attributes-differ",
+                                "Adj-RIB-In[%s] = %s; the last announcement carried %s" % (pfx, canon(rib[pfx]), tbl[pfx]))
+        if has_mp and (d["withdrawn"] or d["nlri"]):
+            family = family + "+ipv4"
         self.version_check("rx", fam_changed, v_before, v_after, "received UPDATE (%s)" % family)
 
     @staticmethod
@@ -442,7 +459,7 @@ class RibProfile(BaseProfile):
             "attributes, several routes per message, withdraw of absent routes), REST send/update for the sent side (IPv4, "
             "flowspec, VPNv4), adj-rib-in/out queries, session drops (close, reset, NOTIFICATION, operator stop) and "
             "re-establishment; non-trivial = reached Established; distinct = distinct (op, state) sequence")
-    probes = ["rx_ipv4_updates", "rx_flowspec_updates", "rx_mpls_vpn_updates", "tx_ipv4_updates", "tx_flowspec_updates",
+    probes = ["gen:mixed_mp_and_ipv4_updates", "rx_ipv4_updates", "rx_flowspec_updates", "rx_mpls_vpn_updates", "tx_ipv4_updates", "tx_flowspec_updates",
               "tx_mpls_vpn_updates", "session_drops", "withdraw_of_absent_route", "reannounce_same_attrs",
               "reannounce_changed_attrs", "rib_queries", "version_should_increase:rx:flowspec",
               "version_should_increase:rx:mpls_vpn", "version_should_increase:tx:flowspec"]
